@@ -366,7 +366,7 @@ def model_doc(raw) -> list:
         entries = []
         with in_scope(s.resolver, scope):
             for key, entry in item.items():
-                if isinstance(entry, dict) and key in HTTP:
+                if isinstance(entry, dict) and key.lower() in HTTP:  # schema[path]['POST'] reaches a key 'Post' too
                     resolved = s._resolve_operation(entry)
                 else:
                     resolved = entry
@@ -958,6 +958,26 @@ def derive_children(schema, calls, read_statistic: bool) -> list:
     return done
 
 
+def gen_pre_access(rng, raw) -> list:
+    """What user code, an earlier phase or an earlier run may have done with the schema object before the engine runs
+    it (same vocabulary as the access histories): lookups never consult the filters, so any operation may be named."""
+    ops = [(p, k) for p, item in raw["paths"].items() for k, v in item.items() if k in HTTP and isinstance(v, dict)]
+    ids = [v["operationId"] for p, item in raw["paths"].items() for k, v in item.items() if k in HTTP and isinstance(v, dict) and "operationId" in v]
+    out = []
+    for _ in range(rng.choice([1, 1, 2, 3])):
+        k = rng.random()
+        if k < 0.35:
+            out.append(["machine"])
+        elif k < 0.7:
+            p, m = rng.choice(ops)
+            out.append(["item", p, rng.choice([m, m.upper()])])
+        elif k < 0.85:
+            out.append(["id", rng.choice(ids)])
+        else:
+            out.append(["traverse"])
+    return out
+
+
 def run_engine_stage(chk, n: int):
     import schemathesis
     from harness.loopback import Recorder
@@ -990,9 +1010,16 @@ def run_engine_stage(chk, n: int):
                 schema = build_schema(raw, calls, funcs)
             seed = rng.randrange(1, 10**6)
             derived = derive_children(schema, calls, rng.random() < 0.5) if rng.random() < 0.7 else []
+            accessed = gen_pre_access(rng, raw) if rng.random() < 0.5 else []
+            run_access_impl(schema, accessed)
+            twice = "stateful" in phases and len(phases) > 1 and rng.random() < 0.2
             case = {"engine": {"calls": calls, "phases": phases, "seed": seed, "via_cli": via_cli, "negative": negative,
-                               "children_derived_before_the_run": derived}}
+                               "children_derived_before_the_run": derived, "accessed_before_the_run": accessed,
+                               "second_run_on_the_same_schema_object": twice}}
             evs, got = run_engine_on(schema, rec, phases, seed, negative=negative)
+            if twice:
+                evs2, got2 = run_engine_on(schema, rec, phases, seed + 1, negative=negative)
+                evs, got = evs + evs2, got + got2
             runs += 1
             chk.seen(case, True)
             chk.count("engine:phases=" + "+".join(phases) + (":modes=all" if negative else ":modes=positive"))
@@ -1168,6 +1195,349 @@ def run_history_stage(chk, n_docs: int, per_doc: int):
 
 
 # ----------------------------------------------------------------------------------------
+# access histories: lookups / traversals / statistics / state machines on ONE schema object (the operation cache)
+# ----------------------------------------------------------------------------------------
+def access_universe(raw, mdoc) -> dict:
+    """What can be looked up on this document: operation ids (raw and resolved, plus an unknown one), references to
+    every operation-like entry (mixed-case keys included, plus dangling ones), schema[path][method] spellings."""
+    ids, refs, items, owner = [], [], [], {}
+    for path, entries in mdoc:
+        for key, r, z in entries:
+            if not isinstance(r, dict) or key.lower() not in HTTP:
+                continue
+            refs.append(ref_of(path, key))
+            owner[ref_of(path, key)] = (path, key)
+            for spelling in (key, key.upper(), key.lower(), key.capitalize()):
+                if (path, spelling) not in items:
+                    items.append((path, spelling))
+                    owner[(path, spelling)] = (path, key.lower())
+            for definition in (r, z):
+                i = definition.get("operationId") if isinstance(definition, dict) else None
+                if isinstance(i, str) and i not in ids:
+                    ids.append(i)
+                if isinstance(i, str):
+                    owner.setdefault(("id", i), []).append((path, key))
+    return {"ids": ids, "refs": refs, "items": items, "owner": owner,
+            "bad_ids": ["nope"], "bad_refs": [ref_of("/zz", "get")] + [ref_of(p, "patch") for p, _ in mdoc[:1]],
+            "bad_items": [(p, "patch") for p, _ in mdoc[:1]] + [("/zz", "get")]}
+
+
+def gen_access_history(rng, uni, unselected: set) -> list:
+    """A random access history; lookups prefer operations that are defined but NOT selected, and every history ends
+    with a traversal and a statistic measurement (what a later phase / a second run does)."""
+    def lookup():
+        k = rng.random()
+        prefer = rng.random() < 0.6
+
+        def pick(cands, owners_of):
+            if prefer:
+                hot = [c for c in cands if any(o in unselected for o in owners_of(c))]
+                if hot:
+                    return rng.choice(hot)
+            return rng.choice(cands)
+
+        if k < 0.35 and (uni["ids"] or uni["bad_ids"]):
+            if uni["ids"] and rng.random() < 0.9:
+                return ["id", pick(uni["ids"], lambda i: uni["owner"].get(("id", i), []))]
+            return ["id", rng.choice(uni["bad_ids"])]
+        if k < 0.6 and uni["refs"]:
+            if rng.random() < 0.9:
+                return ["ref", pick(uni["refs"], lambda r: [uni["owner"][r]])]
+            return ["ref", rng.choice(uni["bad_refs"])]
+        if uni["items"]:
+            if rng.random() < 0.9:
+                return ["item", *pick(uni["items"], lambda it: [uni["owner"][it]])]
+            return ["item", *rng.choice(uni["bad_items"])]
+        return ["traverse"]
+
+    h = []
+    for _ in range(rng.choice([1, 1, 2, 2, 3, 4, 6])):
+        k = rng.random()
+        if k < 0.55:
+            h.append(lookup())
+        elif k < 0.7:
+            h.append(["machine"])
+        elif k < 0.85:
+            h.append(["traverse"])
+        else:
+            h.append([rng.choice(["stat", "measure"])])
+    h.append(["traverse"])
+    h.append([rng.choice(["stat", "measure"])])
+    if rng.random() < 0.5:
+        h += [["machine"], ["traverse"]]
+    return h
+
+
+def observe_machine(schema):
+    """Sorted transitions of as_state_machine(), or None when building raises."""
+    try:
+        sm = schema.as_state_machine()
+    except Exception:  # noqa: BLE001
+        return None
+    trs = []
+    for source, t in sm._transitions.operations.items():
+        for link in t.outgoing:
+            trs.append((source, str(link.status_code), link.name, link.target.label))
+    return sorted(trs)
+
+
+def run_access_impl(schema, history) -> list:
+    """The history on the real schema object -> one canonical observation per access."""
+    from schemathesis.core.result import Ok
+
+    out = []
+    for a in history:
+        kind = a[0]
+        if kind in ("id", "ref", "item"):
+            try:
+                if kind == "id":
+                    o = schema.get_operation_by_id(a[1])
+                elif kind == "ref":
+                    o = schema.get_operation_by_reference(a[1])
+                else:
+                    o = schema[a[1]][a[2]]
+                out.append(("lookup", (o.path, o.method)))
+            except Exception:  # noqa: BLE001  (OperationNotFound, LookupError, RefResolutionError)
+                out.append(("lookup", None))
+        elif kind == "traverse":
+            results = list(schema.get_all_operations())
+            errors = [type(r.err()).__name__ for r in results if not isinstance(r, Ok)]
+            if errors:
+                out.append(("offered-errors", errors))
+            else:
+                out.append(("offered", [(r.ok().path, r.ok().method) for r in results]))
+        elif kind in ("stat", "measure"):
+            st = schema.statistic if kind == "stat" else schema._measure_statistic()
+            out.append(("statistic", (st.operations.total, st.operations.selected, st.links.total, st.links.selected)))
+        elif kind == "machine":
+            out.append(("machine", observe_machine(schema)))
+        else:
+            raise ValueError(a)
+    return out
+
+
+def c_access(a) -> str:
+    kind = a[0]
+    if kind == "id":
+        return f"(AById {cstr(a[1])})"
+    if kind == "ref":
+        return f"(AByRef {cstr(a[1])})"
+    if kind == "item":
+        return f"(AItem {cstr(a[1])} {cstr(a[2])})"
+    return {"traverse": "ATraverse", "stat": "AStat", "measure": "AMeasure", "machine": "AMachine"}[kind]
+
+
+def canon_aobs(v):
+    tag = v[0]
+    if tag == "OLookup":
+        r = _sym(v[1])
+        return ("lookup", None if r is None else (pstr(r[1][0]), pstr(r[1][1])))
+    if tag == "OOffered":
+        return ("offered", [(pstr(p), pstr(m)) for p, m in v[1]])
+    if tag == "OStatistic":
+        return ("statistic", tuple(v[1]))
+    if tag == "OMachine":
+        r = _sym(v[1])
+        return ("machine", None if r is None else sorted((pstr(a), pstr(b), pstr(c), pstr(d)) for a, b, c, d in r[1]))
+    raise ValueError(v)
+
+
+def links_region(ops, independent: bool):
+    """Listed regions in which 'links selected' is known to differ from the number of transitions."""
+    ids = [z.get("operationId") for p, k, r, z in ops if isinstance(r, dict) and r.get("operationId") is not None]
+    odd_ref = False
+    for _p, _k, r, _z in ops:
+        for resp in (r.get("responses", {}) or {}).values() if isinstance(r, dict) else []:
+            for ldef in (resp.get("links") or {}).values():
+                ref = ldef.get("operationRef") if "operationId" not in ldef else None
+                if ref is not None and ref.rsplit("/", 1)[-1] not in HTTP:
+                    odd_ref = True
+    if not independent:
+        return "statistic_on_raw_definition"
+    if len(ids) != len(set(ids)):
+        return "duplicate_operation_id"
+    if odd_ref:
+        return "ref_to_non_method_key"
+    return None
+
+
+def item_access_inconsistent(mdoc, accesses) -> bool:
+    """Region of finding C07-F6 (Model_C07.item_accesses_consistent = false): some schema[path][method] access files the
+    operation it builds under an operationId that a fresh get_operation_by_id resolves to ANOTHER (or no) operation."""
+    by_path = dict(mdoc)
+    for a in accesses:
+        if a[0] != "item" or a[1] not in by_path:
+            continue
+        hit = [(k, r, z) for k, r, z in by_path[a[1]] if k.lower() == a[2].lower()]
+        if not hit or not isinstance(hit[-1][2], dict) or not isinstance(hit[-1][2].get("operationId"), str):
+            continue
+        rid = hit[-1][2]["operationId"]
+        fresh = [(p, k) for p, entries in mdoc for k, r, z in entries if k in HTTP and isinstance(r, dict) and r.get("operationId") == rid]
+        if not fresh or fresh[-1] != (a[1], a[2].lower()):
+            return True
+    return False
+
+
+def access_failures(mdoc, calls, history, obs) -> list:
+    """The property on one access history of the implementation (independent oracle): every traversal offers exactly
+    the selected operations, every statistic reports their number, no transition touches an unselected operation,
+    the reported number of selected links is the number of transitions.  -> [(what, step, detail, region)]"""
+    ops = [(p, k, r, z) for p, entries in mdoc for k, r, z in entries if k in HTTP]
+    ops_all = ops
+    want = [(p, k) for p, k, r, z in ops if oracle_selected(calls, p, k, z)]
+    labels = {f"{k.upper()} {p}" for p, k in want}
+    independent = all(oracle_selected(calls, p, k, r) == oracle_selected(calls, p, k, z) for p, k, r, z in ops)
+    out = []
+    last_stat = None
+    for step, (a, o) in enumerate(zip(history, obs)):
+        tag, value = o
+        before = [x for x in history[:step] if x[0] not in ("stat", "measure")]
+        if tag == "offered":
+            if value != want:
+                extra = [f"{k.upper()} {p}" for p, k in value if (p, k) not in want]
+                missing = [f"{k.upper()} {p}" for p, k in want if (p, k) not in value]
+                what = "access history: traversal offers " + (
+                    f"{', '.join(extra)} although it is NOT selected" if extra else
+                    f"not {', '.join(missing)} although it is selected" if missing else "the selected operations in another order / twice")
+                out.append((what + f" (step {step}, after {json.dumps(before)[:200]})", step, {"offered": value, "selected": want}, None))
+        elif tag == "statistic":
+            last_stat = value
+            if value[0] != len(ops):
+                out.append((f"access history: total operation count {value[0]} differs from the number of operations {len(ops)} (step {step})", step, value, None))
+            if value[1] != len(want):
+                out.append((f"access history: reported selected operations {value[1]} but {len(want)} selected (step {step})", step, value,
+                            None if independent else "statistic_on_raw_definition"))
+        elif tag == "machine" and value is not None:
+            for t in value:
+                if t[0] not in labels or t[3] not in labels:
+                    out.append((f"access history: state machine has a transition from/to an operation that is not selected: {t[0]} -> {t[3]} "
+                                f"(step {step}, after {json.dumps(before)[:200]})", step, t, None))
+    # reported selected links vs transitions actually built on this object
+    if last_stat is not None:
+        for step, (tag, value) in enumerate(obs):
+            if tag == "machine" and value is not None and len(value) != last_stat[3]:
+                before = [x for x in history[:step] if x[0] not in ("stat", "measure")]
+                out.append((f"access history: reported selected links {last_stat[3]} but {len(value)} transitions "
+                            f"(step {step}, after {json.dumps(before)[:200]})", step, {"statistic": last_stat, "transitions": value},
+                            links_region(ops_all, independent)
+                            or ("item_access_refiles_operation_id" if item_access_inconsistent(mdoc, history[:step]) else None)))
+    # reported count vs offered count inside ONE history (whatever the oracle thinks is selected)
+    offered_lens = {len(v) for t, v in obs if t == "offered"}
+    if last_stat is not None and offered_lens and offered_lens != {last_stat[1]}:
+        out.append((f"access history: {sorted(offered_lens)} operations offered by the traversals of one schema object, {last_stat[1]} reported as selected",
+                    len(obs) - 1, {"statistic": last_stat}, None if independent else "statistic_on_raw_definition"))
+    return out
+
+
+def access_case_fails(raw, mdoc, calls, history, what_prefix: str) -> bool:
+    """Does a (shortened) history still violate the property on a FRESH schema object?  (for minimisation)"""
+    schema = build_schema(raw, calls, Funcs())
+    if isinstance(schema, tuple):
+        return False
+    obs = run_access_impl(schema, history)
+    return any(w.split(" (step")[0] == what_prefix and region is None for w, _s, _d, region in access_failures(mdoc, calls, history, obs))
+
+
+def run_access_stage(chk, n_docs: int, chains_per_doc: int, histories_per_chain: int, corpus=()):
+    rng = chk.rng
+    singles = single_calls()
+    docs = fixed_docs()[:6]
+    exprs, index = [], []
+    for c in corpus:  # hand-picked / minimised histories first
+        raw = base_doc(c["paths"])
+        mdoc = model_doc(raw)
+        funcs = Funcs()
+        c_calls = clist([c_call(x, funcs) for x in c["calls"]], "call")
+        schema = build_schema(raw, c["calls"], funcs)
+        impl = None if isinstance(schema, tuple) else run_access_impl(schema, c["accesses"])
+        exprs.append(f"(let d := {c_doc(mdoc)} in map (fun ch : list call * list access => run_access false d (fst ch) (snd ch)) "
+                     f"[{ctuple(c_calls, clist([c_access(a) for a in c['accesses']], 'access'))}])")
+        index.append((raw, mdoc, [(c["calls"], c["accesses"], impl)]))
+    for i in range(n_docs):
+        raw = docs[i % len(docs)] if i < 2 * len(docs) else gen_doc(rng)
+        mdoc = model_doc(raw)
+        cdoc = c_doc(mdoc)
+        uni = access_universe(raw, mdoc)
+        ops = [(p, k, z) for p, entries in mdoc for k, r, z in entries if k in HTTP]
+        rendered, cases = [], []
+        for _ in range(chains_per_doc):
+            # filter sets that leave SOME operation out are the interesting ones; keep the empty chain as well
+            for _try in range(6):
+                calls = [] if rng.random() < 0.08 else [rng.choice(singles) if rng.random() < 0.7 else gen_call(rng) for _ in range(rng.choice([1, 1, 2]))]
+                unselected = {(p, k) for p, k, z in ops if not oracle_selected(calls, p, k, z)}
+                if unselected and len(unselected) < len(ops):
+                    break
+            for _ in range(histories_per_chain):
+                history = gen_access_history(rng, uni, unselected)
+                funcs = Funcs()
+                c_calls = clist([c_call(c, funcs) for c in calls], "call")
+                schema = build_schema(raw, calls, funcs)
+                impl = None if isinstance(schema, tuple) else run_access_impl(schema, history)
+                rendered.append(ctuple(c_calls, clist([c_access(a) for a in history], "access")))
+                cases.append((calls, history, impl))
+        exprs.append(f"(let d := {cdoc} in map (fun ch : list call * list access => run_access false d (fst ch) (snd ch)) "
+                     f"{clist(rendered, '(list call * list access)')})")
+        index.append((raw, mdoc, cases))
+    model = core.coq_eval(IMPORTS, exprs, shard=6)
+    n = 0
+    reported = set()
+    for (raw, mdoc, cases), mvs in zip(index, model):
+        for (calls, history, impl), mv in zip(cases, mvs):
+            n += 1
+            case = {"doc": raw["paths"], "calls": calls, "accesses": history}
+            mv = _sym(mv)
+            cm = None if mv is None else [canon_aobs(o) for o in mv[1]]
+            chk.seen(case, impl is not None and any(a[0] in ("id", "ref", "item", "machine") for a in history[:-2]))
+            chk.count("access:" + ("rejected" if impl is None else f"len={len(history)}"))
+            if impl is None or cm is None:
+                if not (impl is None and cm is None):
+                    chk.disagree("access history: chain of calls accepted by one side only", case, impl, cm)
+                continue
+            for a, o in zip(history, impl):
+                chk.count(f"access:{a[0]}:" + ("raises" if o[1] is None else "ok"))
+            ci = [(t, v) for t, v in impl]
+            if ci != cm:
+                chk.disagree("access history: one real schema object vs Model_C07.run_access", case, ci, cm)
+            for what, step, detail, region in access_failures(mdoc, calls, history, impl):
+                key = (what.split(" (step")[0], json.dumps(calls, sort_keys=True))
+                if region is None and key in reported:
+                    chk.count("access:further-failing-histories-of-a-reported-kind")
+                    continue
+                if region is None and len(reported) >= 12:
+                    chk.count("access:further-failing-histories-beyond-the-report-cap")
+                    continue
+                if region is None:
+                    # a concrete failing input: cut the history down to what is needed (fresh schema object each time)
+                    reported.add(key)
+                    prefix = what.split(" (step")[0]
+                    short = core.shrink_list(history[: step + 1], lambda h: access_case_fails(raw, mdoc, calls, h, prefix))
+                    if access_case_fails(raw, mdoc, calls, short, prefix):
+                        sobs = run_access_impl(build_schema(raw, calls, Funcs()), short)
+                        w2, _s2, d2, _r2 = next(f for f in access_failures(mdoc, calls, short, sobs) if f[0].split(" (step")[0] == prefix and f[3] is None)
+                        chk.fail(w2, {"doc": raw["paths"], "calls": calls, "accesses": short}, {"observations": sobs, **({"oracle": d2} if isinstance(d2, dict) else {"at": d2})})
+                        continue
+                chk.fail(what, case, detail, region=region)
+    out = {"histories": n, "documents": n_docs}
+    bad = [b for b in chk.broken if b.get("what", "").startswith("access history: one real schema object")][:40]
+    if bad:
+        # diagnosis: does the implementation behave like the SENTINEL variant (traversal reuses the cache before the filters)?
+        exprs = []
+        for b in bad:
+            funcs = Funcs()
+            c = b["input"]
+            exprs.append(f"run_access true {c_doc(model_doc(base_doc(c['doc'])))} {clist([c_call(x, funcs) for x in c['calls']], 'call')} "
+                         f"{clist([c_access(a) for a in c['accesses']], 'access')}")
+        like = 0
+        for b, mv in zip(bad, core.coq_eval(IMPORTS, exprs, shard=10)):
+            mv = _sym(mv)
+            like += mv is not None and [canon_aobs(o) for o in mv[1]] == b["implementation"]
+        out["disagreeing_histories_explained_by_the_cache_reuse_sentinel"] = f"{like} of {len(bad)}"
+        chk.notes.append(f"access histories: {like} of {len(bad)} disagreeing histories are reproduced exactly by the sentinel model "
+                         f"run_access true (get_all_operations takes operation-cache hits before the filter test)")
+    return out
+
+
+# ----------------------------------------------------------------------------------------
 # CLI: FilterArguments.into()
 # ----------------------------------------------------------------------------------------
 CLI_BY = ["name", "method", "path", "tag", "operation_id"]
@@ -1292,6 +1662,8 @@ def run(chk: core.Check):
         "correspondence harness harness/props/c07.py: encoders, Coq output parser, the fact extractor model_doc (raw and "
         "resolved definition of every entry through the schema's own resolver), the independent oracle of the property text",
         "reference resolution (resolve_all) is not modelled: a definition enters the model as (raw, resolved)",
+        "operation cache (specs/openapi/_cache.py): modelled as three newest-first association lists keyed by operationId, "
+        "(path, method) and reference; one resolution scope (path items behind $ref are outside the fragment)",
     ]
     chk.assumptions = [
         "hash(label) of two different matcher labels differ (Matcher equality is by hash only)",
@@ -1299,13 +1671,21 @@ def run(chk: core.Check):
         "tags are a list of strings, operationId is a string, no float / int-vs-bool comparisons in expressions",
         "responses and links are not behind $ref; operationRef targets are local references below #/paths/",
         "re.search agrees with the four-constructor regex fragment used by the universe (checked through the correspondence)",
+        "access histories: schema[path][method] / get_operation_by_reference name dictionary-valued entries whose key is an HTTP "
+        "method up to case; method names are ASCII (str.lower = ASCII lower-casing); the schema object is used from one thread",
     ]
     chk.rule = (
         "universe: 8 hand-picked + random documents over 4 paths x keys {get,post,delete,put,GET,Post,parameters,summary} x tags x "
         "operationId (with duplicates) x deprecated x parameters (inline / $ref) x whole-operation $ref x links (by id, by reference, "
         "dangling); filter calls over name/method/path/tag/operation_id by value, list, regex and functions (expressions ==/!=, "
         "is_deprecated, lambdas), include/exclude, deprecated=True, chains of 0-3 calls (thorough: every ordered pair of "
-        "one-matcher calls on every hand-picked document); non-trivial = accepted chain selecting a proper non-empty subset"
+        "one-matcher calls on every hand-picked document); non-trivial = accepted chain selecting a proper non-empty subset; "
+        "access histories: on ONE schema object with a filter set that leaves some operation out, 3-10 accesses out of "
+        "get_operation_by_id / get_operation_by_reference / schema[path][method] (60 % aimed at an operation that is NOT selected; "
+        "case variants, unknown ids, dangling references), as_state_machine(), get_all_operations(), schema.statistic, "
+        "_measure_statistic(), always ending with a traversal and a statistic; non-trivial = a lookup or a state machine precedes "
+        "the final traversal; engine runs: half of them on a schema object that was accessed that way before, a fifth of the "
+        "stateful ones run twice on the same object"
     )
     chk.proofs(["Common", "C07"])
     rng = chk.rng
@@ -1338,6 +1718,10 @@ def run(chk: core.Check):
     # ---- derivation histories (trees of schemas, cached statistic reads in between)
     chk.stages["correspondence_histories"] = run_history_stage(chk, 16 if quick else 300, 25 if quick else 40)
 
+    # ---- access histories on ONE schema object (operation cache: lookups, state machines, repeated traversals)
+    chk.stages["correspondence_access_histories"] = run_access_stage(
+        chk, 24 if quick else 240, 5 if quick else 10, 4 if quick else 6, corpus=[c for c in corpus if "accesses" in c])
+
     # ---- CLI options
     chk.stages["correspondence_cli"] = run_cli_stage(chk, 300 if quick else 6000)
 
@@ -1352,7 +1736,11 @@ def run(chk: core.Check):
     chk.stages["engine_search"] = run_engine_stage(chk, (12 if quick else 90) * (10 if chk.broken else 1))
 
     # real traffic to an unselected operation is the most telling failing input: keep it at the head of the replay file
-    chk.failures.sort(key=lambda f: 0 if str(f["what"]).startswith("engine sent") else 1)
+    # (at most 8 of them, then the minimised access histories, then the rest: the replay file keeps the first 20)
+    eng = [f for f in chk.failures if str(f["what"]).startswith("engine sent")]
+    acc = [f for f in chk.failures if str(f["what"]).startswith("access history")]
+    rest = [f for f in chk.failures if not str(f["what"]).startswith(("engine sent", "access history"))]
+    chk.failures[:] = eng[:8] + acc + eng[8:] + rest
 
     for f in chk.findings:
         chk.known(f, witness_fails(f["witness"]))
@@ -1368,6 +1756,12 @@ def witness_fails(w) -> bool:
     raw = base_doc(w["paths"])
     funcs = Funcs()
     schema = build_schema(raw, w["calls"], funcs)
+    if w["kind"] == "access_links":
+        # reported selected links vs the transitions of a state machine built AFTER the accesses, on one schema object
+        obs = run_access_impl(schema, w["accesses"])
+        stats = [v for t, v in obs if t == "statistic"]
+        machines = [v for t, v in obs if t == "machine" and v is not None]
+        return bool(stats) and bool(machines) and any(len(m) != stats[-1][3] for m in machines)
     obs = observe_schema(schema)
     if w["kind"] == "stat_ops":
         return obs["stat"][1] != len(obs["offered"])
@@ -1383,7 +1777,17 @@ def replay(payload) -> int:
     for f in payload.get("failing_inputs", []) + payload.get("broken_obligations_or_correspondence", []):
         case = f.get("input")
         print(f.get("what"), "::", json.dumps(case)[:400])
-        if isinstance(case, dict) and "doc" in case and "calls" in case:
+        if isinstance(case, dict) and "doc" in case and "calls" in case and "accesses" in case:
+            raw = base_doc(case["doc"])
+            funcs = Funcs()
+            built = build_schema(raw, case["calls"], funcs)
+            impl = None if isinstance(built, tuple) else run_access_impl(built, case["accesses"])
+            expr = (f"run_access false {c_doc(model_doc(raw))} {clist([c_call(c, funcs) for c in case['calls']], 'call')} "
+                    f"{clist([c_access(a) for a in case['accesses']], 'access')}")
+            m = _sym(core.coq_eval(IMPORTS, [expr])[0])
+            print("  implementation:", impl)
+            print("  model         :", None if m is None else [canon_aobs(o) for o in m[1]])
+        elif isinstance(case, dict) and "doc" in case and "calls" in case:
             raw = base_doc(case["doc"])
             funcs = Funcs()
             built = build_schema(raw, case["calls"], funcs)
@@ -1407,7 +1811,10 @@ def replay(payload) -> int:
                     schema = build_schema(raw, e["calls"], Funcs())
                 if e.get("children_derived_before_the_run"):
                     derive_children(schema, e["calls"], "statistic" in e["children_derived_before_the_run"])
+                run_access_impl(schema, e.get("accessed_before_the_run") or [])
                 evs, got = run_engine_on(schema, rec, e["phases"], e["seed"], negative=bool(e.get("negative")))
+                if e.get("second_run_on_the_same_schema_object"):
+                    got = got + run_engine_on(schema, rec, e["phases"], e["seed"] + 1, negative=bool(e.get("negative")))[1]
             finally:
                 rec.close()
             hit: dict = {}
